@@ -183,7 +183,8 @@ def build_driver():
         if rc != 0:
             return False, out
         h = hashlib.sha256()
-        deps = [os.path.join(COQ, "Extract", "Extract.v"), os.path.join(ROOT, "ocaml", "driver.ml")]
+        mls = ["dcore.ml"] + sorted(f for f in os.listdir(os.path.join(ROOT, "ocaml")) if f.startswith("d_") and f.endswith(".ml")) + ["driver.ml"]
+        deps = [os.path.join(COQ, "Extract", "Extract.v")] + [os.path.join(ROOT, "ocaml", f) for f in mls]
         for dp, _, fs in os.walk(COQ):
             for fn in sorted(fs):
                 if fn.endswith(".vo") and not dp.endswith("Props") and not dp.endswith("Proofs"):
@@ -198,8 +199,9 @@ def build_driver():
         rc, out = run(["coqc", "-q", "-Q", COQ, "V", os.path.join(COQ, "Extract", "Extract.v")], cwd=OCAML, timeout=900)
         if rc != 0:
             return False, out
-        shutil.copy(os.path.join(ROOT, "ocaml", "driver.ml"), os.path.join(OCAML, "driver.ml"))
-        rc, out2 = run(["ocamlfind", "ocamlopt", "-O2", "-w", "-a", "model.mli", "model.ml", "driver.ml", "-o", "driver"], cwd=OCAML, timeout=900)
+        for f in mls:
+            shutil.copy(os.path.join(ROOT, "ocaml", f), os.path.join(OCAML, f))
+        rc, out2 = run(["ocamlfind", "ocamlopt", "-O2", "-w", "-a", "model.mli", "model.ml"] + mls + ["-o", "driver"], cwd=OCAML, timeout=900)
         if rc != 0:
             return False, out + out2
         with open(stamp, "w") as f:
